@@ -48,3 +48,18 @@ func dbgCallees(w *World, r *Report) {
 	}
 	r.Rule("dbg", "", "", 0)
 }
+
+func init() {
+	register("DBG-rejections", func(w *World, r *Report) {
+		for _, m := range []string{"cfevesting", "cfeminter", "cfedistributor", "cfesignature"} {
+			fn := w.Func("x/" + m + "/types.GenesisState.Validate")
+			if fn == nil {
+				fmt.Println("no GenesisState.Validate for", m)
+				continue
+			}
+			for _, rj := range genesisRejections(w, fn) {
+				fmt.Println(m, "|", w.Pos(rj.If.Pos()), "|", rj.Key)
+			}
+		}
+	})
+}
